@@ -1289,6 +1289,7 @@ class Big(Family):
             Doc('big-dup-250', self._doc(250, dup=0), 'fault:dup-key'),
             Doc('big-dangling-250', self._doc(250, dangling=True), 'fault:dangling'),
             Doc('big-valid-30', self._doc(30)),
+            Doc('big-valid-900', self._doc(900)),          # ~ 78 KiB: beyond the 64 KiB buffer of the defusable reader
             # exactly 256 validation errors (an exit status is 8 bits wide)
             Doc('big-256-errors', self._doc(256).replace(' k="', ' k="x'), 'fault:lexical'),
         ]
